@@ -662,8 +662,8 @@ func (r *rwRT) ruleComments() {
 		if !isNil && collected {
 			// the merged list must be in source order: go/printer interleaves comments by position
 			for _, e := range o.St.Events[:lastStore] {
-				if e.Kind != "call" || e.Fn == nil || fnPkgPath(e.Fn) != "sort" || len(e.Args) != 2 {
-					continue
+				if e.Kind != "call" || e.Fn == nil || fnPkgPath(e.Fn) != "sort" || len(e.Args) != 2 || !strings.HasPrefix(e.Fn.Name(), "Slice") {
+					continue // sort.Slice / sort.SliceStable take a comparator (sort.Search takes a predicate)
 				}
 				less, isClo := e.Args[1].(Closure)
 				if !isClo {
@@ -675,7 +675,7 @@ func (r *rwRT) ruleComments() {
 				// (each part sorted, then a hand-written merge) are not judged: the merge's order is not decided here.
 				nSorts := 0
 				for _, e2 := range o.St.Events[:lastStore] {
-					if e2.Kind == "call" && e2.Fn != nil && fnPkgPath(e2.Fn) == "sort" && len(e2.Args) == 2 {
+					if e2.Kind == "call" && e2.Fn != nil && fnPkgPath(e2.Fn) == "sort" && len(e2.Args) == 2 && strings.HasPrefix(e2.Fn.Name(), "Slice") {
 						nSorts++
 					}
 				}
